@@ -68,6 +68,24 @@ func init() {
 		}
 		return "ok " + showData(target.Bytes()) + " " + showHashers(hs)
 	}
+	// hwriteobs: as hwrite, but Size() and Sum(nil) of every hasher are also read after each Write: observing a
+	// hasher in mid-stream must not disturb it, and what it reports then is the digest of the bytes so far
+	ops["hwriteobs"] = func(a []string) string {
+		var target bytes.Buffer
+		w, hs, err := hashio.NewHasherWriters(namesOf(arg(a, 0)), &target)
+		if err != nil {
+			return "err"
+		}
+		mid := []string{}
+		for _, c := range a[1:] {
+			n, err := w.Write([]byte(c))
+			if err != nil || n != len(c) {
+				return "write-error"
+			}
+			mid = append(mid, showHashers(hs))
+		}
+		return "ok " + showData(target.Bytes()) + " " + showHashers(hs) + " | " + showList(mid)
+	}
 	// hread names data size size ...: read through the tee with buffers of the given sizes (cyclically)
 	ops["hread"] = func(a []string) string {
 		names := namesOf(arg(a, 0))
